@@ -119,6 +119,14 @@ def validate_prepare_data(data, poly_trend, n_offsets):
     err = np.concatenate(err) * rv_unit
     ids = np.concatenate(ids)
 
+    # The labels are compared after numpy has put the keys into one array: keys that
+    # can no longer be told apart there (1 and '1') or that never equal themselves
+    # (nan) would silently merge sources or detach one from its offset
+    unq_ids = np.unique(ids)
+    if len(unq_ids) != len(data) or not all(np.any(ids == x) for x in unq_ids):
+        raise ValueError("The keys of the data sources must be distinguishable from "
+                         f"each other: {list(data.keys())}")
+
     # validate number of unique ids vs. number of v0_offsets in prior
     if (len(np.unique(ids)) - 1) != n_offsets:
         raise ValueError("Number of data IDs + 1 must equal the number of "
